@@ -181,4 +181,48 @@ def dec2ddm(dec):""", note='sign flag dropped in dec2dms: wrong for -1 < x < 0')
     dict(id='ang-ddm-round', props=['C12'], file='geodepy/angles.py',
          old="            return DDMAngle(-self.degree, -round(self.minute, n))",
          new="            return DDMAngle(self.degree, round(self.minute, n))", note='DDMAngle.__round__ drops the sign'),
+    # ---- C04 / C05: geodesics ------------------------------------------------------------------------------------
+    dict(id='vd-bcoef', props=['C04'], file='geodepy/geodesy.py',
+         old="""    b = (u_squared / 1024) \\
+        * (256 + u_squared * (-128 + u_squared * (74 - 47 * u_squared)))
+
+    # Eq. 94""",
+         new="""    b = (u_squared / 1024) \\
+        * (256 + u_squared * (-128 + u_squared * (75 - 47 * u_squared)))
+
+    # Eq. 94""", note='vincdir B series 74 -> 75'),
+    dict(id='vd-grs80-f', props=['C04'], file='geodepy/geodesy.py',
+         old="""    # Eq. 100
+    c = (ellipsoid.f/16)*cos(alpha)**2 \\
+        * (4 + ellipsoid.f*(4 - 3*cos(alpha)**2))""",
+         new="""    # Eq. 100
+    c = (grs80.f/16)*cos(alpha)**2 \\
+        * (4 + grs80.f*(4 - 3*cos(alpha)**2))""", note='C coefficient from the default ellipsoid'),
+    dict(id='vd-looptol', props=['C04'], file='geodepy/geodesy.py', old='        if abs(sigma_change) < 1e-12:',
+         new='        if abs(sigma_change) < 1e-6:', note='sigma iteration tolerance 1e-12 -> 1e-6'),
+    dict(id='vd-eq101-sign', props=['C04'], file='geodepy/geodesy.py',
+         old="* (sigma + c*sin(sigma)*(cos(two_sigma_m) + c*cos(sigma)", new="* (sigma - c*sin(sigma)*(cos(two_sigma_m) + c*cos(sigma)",
+         note='sign inside eq. 101'),
+    dict(id='vd-revaz', props=['C04'], file='geodepy/geodesy.py',
+         old="    azimuth2to1 = degrees(atan2(sin(alpha), -sin(u1)*sin(sigma)\n                          + cos(u1)*cos(sigma)*cos(azimuth1to2))) + 180\n\n    return round(lat2, 11), round(lon2, 11), round(azimuth2to1, 9)",
+         new="    azimuth2to1 = degrees(atan2(sin(alpha), -sin(u1)*sin(sigma)\n                          + cos(u1)*cos(sigma)*cos(azimuth1to2))) + 180\n\n    return round(lat2, 11), round(lon2, 11), round(azimuth2to1, 6)",
+         note='reverse azimuth rounded to 6 decimals'),
+    dict(id='vi-itercap', props=['C05'], file='geodepy/geodesy.py',
+         old="""    cos_two_sigma_m = 0
+    for i in range(1000):""", new="""    cos_two_sigma_m = 0
+    for i in range(5):""", note='lambda iteration cap 1000 -> 5 (long lines only)'),
+    dict(id='vi-atan2-swap', props=['C05'], file='geodepy/geodesy.py',
+         old="""    azimuth2to1 = degrees(atan2(cos(u1)*sin(lon),
+                                (-sin(u1)*cos(u2)
+                                 + cos(u1)*sin(u2)*cos(lon)))) + 180""",
+         new="""    azimuth2to1 = degrees(atan2((-sin(u1)*cos(u2)
+                                 + cos(u1)*sin(u2)*cos(lon)),
+                                cos(u1)*sin(lon))) + 180""", note='atan2 arguments swapped in the reverse azimuth'),
+    dict(id='vi-coincide-tol', props=['C05'], file='geodepy/geodesy.py', old='    tolerance = 0.0000000001', new='    tolerance = 0.000001',
+         note='coincidence shortcut 1e-10 -> 1e-6 deg (0.1 m lines return 0)'),
+    dict(id='vi-no-180', props=['C05'], file='geodepy/geodesy.py',
+         old="                                 + cos(u1)*sin(u2)*cos(lon)))) + 180", new="                                 + cos(u1)*sin(u2)*cos(lon))))",
+         note='+180 dropped from the reverse azimuth'),
+    dict(id='vi-semimin-grs80', props=['C05'], file='geodepy/geodesy.py', old="    ell_dist = ellipsoid.semimin*a * (sigma - delta_sigma)",
+         new="    ell_dist = grs80.semimin*a * (sigma - delta_sigma)", note='distance scaled with the default ellipsoid'),
 ]
